@@ -448,6 +448,23 @@ def run_transform(case):
                             reflection=bool(kind == "scale" and par[0] * par[1] < 0), detail=dict(detail, n_wrong=int((got != inside[keep2]).sum())))
             if not (kind == "translate" and par == (0.0, 0.0)) and not (kind == "rotate" and par[0] in (0, 360)) and not (kind == "scale" and par[:2] == (1, 1)):
                 res.nontrivial = True
+    # documented defaults: calls that leave arguments out are not in place, use the origin (0, 0), zero shifts and unit factors
+    for label, call, full in (
+        ("rotate(30)", lambda Q: Q.rotate(30), lambda Q: Q.rotate(30, origin=(0.0, 0.0), inplace=False)),
+        ("translate(dx)", lambda Q: Q.translate(dx=1.5), lambda Q: Q.translate(dx=1.5, dy=0.0, inplace=False)),
+        ("translate(dy)", lambda Q: Q.translate(dy=-0.7), lambda Q: Q.translate(dx=0.0, dy=-0.7, inplace=False)),
+        ("scale(xfact)", lambda Q: Q.scale(xfact=2), lambda Q: Q.scale(xfact=2, yfact=1, origin=(0, 0), inplace=False)),
+        ("scale(yfact)", lambda Q: Q.scale(yfact=-1.5), lambda Q: Q.scale(xfact=1, yfact=-1.5, origin=(0, 0), inplace=False)),
+    ):
+        P = tdgl.Polygon("P", points=raw)
+        p0 = P.points.copy()
+        R = call(P)
+        res.count("programs")
+        W = full(tdgl.Polygon("P", points=raw))
+        if R is P or not np.array_equal(P.points, p0):
+            res.violate("default-call-is-in-place", kind=label, detail={"shape": case["shape"]})
+        elif not np.allclose(R.points, W.points, rtol=0, atol=1e-12):
+            res.violate("default-arguments-differ-from-documented", kind=label, detail={"shape": case["shape"]})
     # copy
     P = tdgl.Polygon("P", points=raw, mesh=False)
     C = P.copy()
